@@ -36,6 +36,7 @@ func genNetConfig(ch *Chooser, prop, tier string, disabled map[string]bool) *Run
 		cfg.TimerBaseMs = append(cfg.TimerBaseMs, b)
 	}
 	if !cfg.FaultFree {
+		cfg.Director = []string{"", "", "split-commit", "split-prepare"}[ch.Pick("director", 4)]
 		cfg.DropPm = drawRate(ch, "r-drop")
 		cfg.DupPm = drawRate(ch, "r-dup")
 		cfg.DelayPm = drawRate(ch, "r-delay")
@@ -65,6 +66,9 @@ type pendingEvent struct {
 func (w *World) pendingEvents() []pendingEvent {
 	var evs []pendingEvent
 	for _, f := range w.flights {
+		if w.hold != nil && w.hold(f) {
+			continue
+		}
 		evs = append(evs, pendingEvent{at: f.at, seq: f.seq, flight: f})
 	}
 	for _, n := range w.nodes {
@@ -166,6 +170,7 @@ func RunNet(w *World) {
 			}
 			continue
 		}
+		w.directorStep()
 		if !w.netStep() {
 			break
 		}
@@ -602,3 +607,101 @@ func (w *World) describeConfig() string {
 	}
 	return s
 }
+
+// ---------------------------------------------------------------------------------------------
+// Directors: targeted fault placement. A director only withholds messages and fires timers early, i.e. it
+// composes legal asynchrony (loss, delay, timeouts) so that the rare interesting states are reached often:
+// one node decided while the others are locked and changing view, or only part of the committee locked.
+
+type director struct {
+	state  int
+	h      uint64
+	lucky  int // the node that is allowed to make progress
+	kind   Kind
+	budget int
+	held   func(f *Flight) bool
+}
+
+func (w *World) directorStep() {
+	if w.cfg.Director == "" {
+		return
+	}
+	d := w.dir
+	if d == nil {
+		d = &director{h: uint64(1 + w.ch.Pick("dir-h", w.cfg.Heights)), budget: 400}
+		d.kind = KC
+		if w.cfg.Director == "split-prepare" {
+			d.kind = KP
+		}
+		// the lucky node is a correct member of that height's committee
+		var cands []int
+		for _, idx := range w.committeeIdx(d.h) {
+			if !w.isByz(idx) {
+				cands = append(cands, idx)
+			}
+		}
+		if len(cands) == 0 {
+			w.cfg.Director = ""
+			return
+		}
+		d.lucky = cands[w.ch.Pick("dir-lucky", len(cands))]
+		w.dir = d
+		d.held = func(f *Flight) bool {
+			if f.to == d.lucky || f.tag != "" {
+				return false
+			}
+			m := Decode(f.raw)
+			return m != nil && m.Kind == d.kind && m.Height() == d.h
+		}
+		w.hold = func(f *Flight) bool { return d.state == 0 && d.held(f) }
+		w.ev("director %s h%d lucky n%d", w.cfg.Director, d.h, d.lucky)
+	}
+	if d.state != 0 {
+		return
+	}
+	d.budget--
+	ln := w.nodes[d.lucky]
+	done := false
+	switch d.kind {
+	case KC:
+		for _, c := range ln.obs.commits {
+			if c.height == d.h {
+				done = true
+			}
+		}
+	case KP:
+		for _, s := range ln.obs.sends {
+			if s.msg != nil && s.msg.Kind == KC && s.msg.Ref.H == d.h {
+				done = true // the lucky node is prepared (it sent COMMIT)
+			}
+		}
+	}
+	if !done && d.budget > 0 {
+		return
+	}
+	d.state = 1
+	if !done {
+		w.hold = nil
+		return
+	}
+	w.probe("director-split-reached")
+	// the withheld messages are lost, and every other correct node still deciding that height times out
+	keep := w.flights[:0]
+	for _, f := range w.flights {
+		if d.held(f) {
+			w.stats.Fault("drop")
+			continue
+		}
+		keep = append(keep, f)
+	}
+	w.flights = keep
+	w.hold = nil
+	for _, n := range w.honest() {
+		if n.idx == d.lucky || !n.alive || n.height() != d.h || n.trig == nil || n.trig.cur == nil || n.trig.cur.fired {
+			continue
+		}
+		w.stats.Fault("timer-early")
+		w.fireTimer(n, n.trig.cur, "timer-fire(director)")
+	}
+}
+
